@@ -69,6 +69,13 @@ class RobotController:
     def getFPGATime():
         return env().now_us()
 
+    @staticmethod
+    def getTime():
+        # the FPGA clock unless the program installed its own time source (RobotController.setTimeSource):
+        # symbolic offset where the environment models one, a fixed 1.5 s elsewhere
+        ts = getattr(env(), "time_source_us", None)
+        return ts() if ts is not None else env().now_us() + 1500000
+
 
 class DriverStation:
     @staticmethod
